@@ -79,6 +79,7 @@ type violation struct {
 	detail  string
 	item    string // sub-item (battery test name / relation) — part of the signature
 	node    *node  // the node whose value / operation is concerned
+	witness string // first-touch monitor: the operand pair (the tree is irrelevant)
 }
 
 type abort struct{ v *violation }
@@ -125,7 +126,8 @@ type env struct {
 	vals       []val // every node value of the case (for the ordering cross-check)
 	pairs      int
 	nontrivial bool
-	quiet      bool // only compute values (used by the minimiser)
+	ftRng      *core.Rng // first-touch matrix: independent of the tree
+	quiet      bool      // only compute values (used by the minimiser)
 	noExclude  bool // pinned witnesses: known-finding exclusions off
 }
 
@@ -963,8 +965,10 @@ func execute(root *node, st *core.Stats, salt uint64, noExclude bool) (out outco
 			out.viol = &violation{monitor: "go-panic-escaped", detail: fmt.Sprintf("Go panic out of a direct String API call: %v\n%s", p, core.Trunc(string(debug.Stack()), 2500)), node: root}
 		}
 	}()
+	e.ftRng = core.NewRng(salt ^ 0x9e3779b97f4a7c15)
 	e.eval(root)
 	e.ordering(root)
+	e.firstTouch()
 	if why := gj.IdleProblem(e.r, false); why != "" {
 		out.viol = &violation{monitor: "vm-not-idle", detail: why, node: root}
 	}
